@@ -21,7 +21,9 @@ func init() {
 		Assumptions: []string{"encoding/binary and the harness's own varint are the independent references",
 			"varints longer than 10 bytes or overflowing 64 bits are a grey zone for Skip: any answer without a panic and within the input is accepted"},
 		Work: c18Work,
-		Post: func(a *mc.Agg) []string { return needDims(a, "varint", "zigzag", "tag", "decode", "skip-valid", "skip-hostile") },
+		Post: func(a *mc.Agg) []string {
+			return needDims(a, "varint", "zigzag", "tag", "decode", "skip-valid", "skip-hostile")
+		},
 	})
 }
 
